@@ -103,6 +103,9 @@ C15.append(
     ], 'C15/recursive-granted'))
 
 EQUIVALENT = {
+    'log-written-without-lock': 'each message reaches the file as one write(2) on an O_APPEND descriptor '
+                                '(TextIOWrapper/BufferedWriter pass a large string through in one piece), so '
+                                'appends do not interleave even without the lock',
     'model-file-written-before-dataset': 'PENDING hides the key until the whole transaction commits, so the '
                                          'order of model file and dataset inside it is unobservable',
     'sh-recursive-check-removed': 'the process-level lock repeats the check, so path_lock still raises',
